@@ -132,6 +132,21 @@ def run(chk):
     chk.ob("C19.R2", where, "identifier", ok_id and ok_rid,
            "id == TabulatorId-BatchId-RecordId (record id taken from the session, de-obfuscated from the image mask only when it is 'X')",
            node=app[0] if app else L, **detail)
+    # de-obfuscation: the record id is replaced only when it is the placeholder "X", by the number taken from the image mask
+    later = [(t, v, s0) for t, v, s0 in stores(L) if norm(t) == RID and not (rid and s0 is rid[0])]
+    ok_ob = True
+    det_ob = []
+    for t, v, s0 in later:
+        guards = [a for a in ancestors(s0) if isinstance(a, ast.If)]
+        g_x = any(norm(a.test) in (f"{RID}=='X'", f"'X'=={RID}") for a in guards)
+        det_ob.append(norm(s0)[:80])
+        if not (g_x and "ImageMask" in norm(parent(parent(s0))) if parent(s0) is not None else False) and not g_x:
+            ok_ob = False
+        if "image" not in norm(v).lower() and "match" not in norm(v).lower():
+            ok_ob = False
+    chk.ob("C19.R2", where, "record-id-deobfuscation", ok_ob,
+           "the record id taken from the session is replaced only under `record id == 'X'` (obfuscated export), by the number parsed from "
+           "the image mask", node=later[0][2] if later else L, strength="N", later_stores=det_ob)
     chk.ob("C19.R2", where, "tally-pool", ok_tp, "tally_pool == TabulatorId-BatchId", node=app[0] if app else L)
     chk.ob("C19.R2", where, "pooled-flag", ok_pool, "pool == (the session's CountingGroupId is in pool_groups)", node=app[0] if app else L)
     vinit = [s for s in L.body if isinstance(s, ast.Assign) and norm(s.targets[0]) == VOTES]
